@@ -6,7 +6,7 @@ import random, json, sys, os, builtins
 from ..harness import coq, impl, scn
 
 pid = 'C18'
-gen_modules = ['tr_lint', 'tr_rules', 'tr_has_patcher', 'tr_rest_patcher', 'tr_rest_lintcontract', 'tr_rest_lintglue', 'tr_rest_linttables']
+gen_modules = ['tr_lint', 'tr_rules', 'tr_has_patcher', 'tr_rest_patcher', 'tr_rest_lintcontract', 'tr_rest_lintglue', 'tr_rest_linttables', 'tr_rest_stubfile', 'tr_rest_lintmisc']
 model_targets = ['Sem/ScnLint.v']
 hand_modelled = ['coq/Sem/LintModel.v: traverse / get_exceptions / get_markers / has_returns / CheckRaises / CheckMarkers / generate_stub on the fragment (hand-written; '
                  'source pinned by tools/py2coq/lint_pins.json); astroid (name resolution of callees) is an oracle: the generator only calls functions defined in the module']
